@@ -38,6 +38,25 @@ pub fn run(seed: u64, out: &str, thorough: bool) {
             emit(&mut sink, format!("row.clear {}", hex(&bytes)), format!("row {}", hex(&row.bytes())));
         }
     }
+    // ---- long rows (8, 9, 16, 17 bytes: a row may be processed a machine word at a time): one nibble set among zeros /
+    //      among saturated neighbours, every position
+    for length in [8usize, 9, 16, 17] {
+        for position in 0..(2 * length) {
+            for value in [1u8, 3, 8, 15] {
+                for background in [0x00u8, 0xff] {
+                    let mut bytes = vec![background; length];
+                    let byte = position / 2;
+                    bytes[byte] = if position % 2 == 0 { (bytes[byte] & 0x0f) | (value << 4) } else { (bytes[byte] & 0xf0) | value };
+                    let mut row = verif::VerifRow::new(bytes.clone());
+                    row.half_counters();
+                    emit(&mut sink, format!("row.half {}", hex(&bytes)), format!("row {}", hex(&row.bytes())));
+                    let mut row = verif::VerifRow::new(bytes.clone());
+                    let result = catch_unwind(AssertUnwindSafe(|| { row.increment_at(position as u64); row.bytes() }));
+                    emit(&mut sink, format!("row.inc {} {}", hex(&bytes), position), match result { Ok(b) => format!("row {}", hex(&b)), Err(_) => "panic".to_string() });
+                }
+            }
+        }
+    }
     // ---- next_power_2: every small value, around every power of two
     sink.both("# case pure np2");
     let mut values: Vec<u64> = (1..=130).collect();
